@@ -191,7 +191,7 @@ func (h *Session) FindByMAC(mac net.HardwareAddr) (list []Addr) {
 	defer h.mutex.RUnlock()
 	for _, v := range h.HostTable.Table {
 		if bytes.Equal(v.MACEntry.MAC, mac) {
-			list = append(list, Addr{MAC: v.MACEntry.MAC, IP: v.Addr.IP})
+			list = append(list, Addr{MAC: CopyMAC(v.MACEntry.MAC), IP: v.Addr.IP}) // the caller owns the result
 		}
 	}
 	return list
